@@ -14,28 +14,11 @@ Record wopts := mkOpts { o_char : N; o_count : nat; o_single_quote : bool }.
 
 (** ---------- float predicates used by the writer ---------- *)
 Definition fl_finite (x : fl) : bool := match x with FFin _ _ _ => true | _ => false end.
-(** [f64::is_normal]: finite, not zero, magnitude at least 2^-1022 *)
-Definition fl_is_normal (x : fl) : bool :=
-  match x with
-  | FFin _ m e => negb (m =? 0) && (-1022 <=? Z.of_N (N.size m) + e - 1)%Z
-  | _ => false
-  end.
 (** [x != 0.0] *)
 Definition fl_nonzero (x : fl) : bool :=
   match x with FFin _ m _ => negb (m =? 0) | FInf _ => true | FNaN => true end.
-(** [(x - 1.0).abs() > f64::EPSILON], on exact values (the subtraction is exact whenever the
-    result is near EPSILON, and monotone otherwise) *)
-Definition fl_scale_differs (x : fl) : bool :=
-  match x with
-  | FNaN => false
-  | FInf _ => true
-  | FFin neg m e =>
-      let e0 := Z.min e 0 in
-      let d := Z.abs (fl_z neg m e e0 - 2 ^ (- e0)) in       (* |x - 1| = d * 2^e0 *)
-      (* d * 2^e0 > 2^-52  <->  d * 2^(e0 + 52) > 1 *)
-      if (0 <=? e0 + 52)%Z then (1 <? d * 2 ^ (e0 + 52))%Z
-      else (2 ^ (- (e0 + 52)) <? d)%Z
-  end.
+(** [x != 1.0] *)
+Definition fl_scale_differs (x : fl) : bool := negb (fl_eqb x f1).
 
 (** ---------- base64 (the plist crate's <data>) ---------- *)
 Definition b64_char (n : N) : N :=
@@ -191,21 +174,25 @@ Section Encoder.
       | _ => Ok [Elem (s2l "lib") [] [pv_node (PDict (sort_keys_rec lib))]]
       end).
 
+  (** the outline element is written when there is a contour or a component *)
+  Definition enc_outline (cs : list contour) (ks : list component) : list node :=
+    match cs, ks with
+    | [], [] => []
+    | _, _ => [Elem (s2l "outline") [] (map enc_contour cs ++ map enc_component ks)]
+    end.
+
   (** [encode_xml_impl] *)
   Definition encode_glif (g : glyph) : res node :=
     bind (enc_lib g) (fun libn =>
       Ok (Elem (s2l "glyph") [(k_name, gname g); (k_format, s2l "2")]
             (map (fun c => Empty (s2l "unicode") [(k_hex, fh c)]) (gcps g) ++
-             (if fl_is_normal (gwidth g) || fl_is_normal (gheight g)
+             (if fl_nonzero (gwidth g) || fl_nonzero (gheight g)
               then [Empty (s2l "advance")
                       (cond_attr (fl_nonzero (gheight g)) k_height (ff (gheight g)) ++
                        cond_attr (fl_nonzero (gwidth g)) k_width (ff (gwidth g)))]
               else []) ++
              (match gimage g with Some i => [enc_image i] | None => [] end) ++
-             (match gcontours g, gcomps g with
-              | [], [] => []
-              | cs, ks => [Elem (s2l "outline") [] (map enc_contour cs ++ map enc_component ks)]
-              end) ++
+             enc_outline (gcontours g) (gcomps g) ++
              map enc_anchor (ganchors g) ++ map enc_guideline (gguides g) ++
              libn ++
              (match gnote g with Some n => [Elem (s2l "note") [] (text_kids n)] | None => [] end)))).
@@ -232,9 +219,6 @@ Definition note_survives (n : option str) : bool :=
     begins or ends with a blank *)
 Definition c02_f3 (o : wopts) (g : glyph) : bool :=
   (negb (Nat.eqb (o_count o) 0) && negb (libs_plain g)) || negb (note_survives (gnote g)).
-Definition c02_advance_subnormal (g : glyph) : bool :=
-  negb (fl_is_normal (gwidth g) || fl_is_normal (gheight g)) &&
-  (fl_nonzero (gwidth g) || fl_nonzero (gheight g)).
 Definition c02_empty_contour (g : glyph) : bool :=
   existsb (fun c => match cpoints c with [] => true | _ => false end) (gcontours g).
 
